@@ -50,7 +50,7 @@ def work_prefix(h, cases):
 
 
 def run(pid, tier, families, t0, extra_assume=(), level="model_checking", strict=True, worker=None, rule=None,
-        text=None):
+        text=None, worker_for=None, after=None):
     rep = C.Reporter(pid)
     hp = C.ensure_harness()
     gd = C.gen_dir(pid.lower())
@@ -66,7 +66,7 @@ def run(pid, tier, families, t0, extra_assume=(), level="model_checking", strict
             continue
         P.write_cfg(gd, name, over)
         cases = []
-        r = C.run_tlc(mod, name, workers=8, gendir=gd, timeout=2400, heap="12g",
+        r = C.run_tlc(mod, name, workers=8, gendir=gd, timeout=900 if tier == "quick" else 5400, heap="12g",
                       simulate=sim[0] if sim else None, depth=sim[1] if sim else None,
                       on_replay=cases.append)
         cmds.append(r.cmd)
@@ -85,7 +85,7 @@ def run(pid, tier, families, t0, extra_assume=(), level="model_checking", strict
         states += r.distinct or r.generated
         trans += r.generated
         C.log("[%s] %s: %d states, %d cases, %.0fs" % (pid, name, r.distinct or r.generated, len(cases), r.wall))
-        res = C.proc_map(hp, worker or work, cases, chunk=300)
+        res = C.proc_map(hp, (worker_for or {}).get(name) or worker or work, cases, chunk=300)
         for c, x in zip(cases, res):
             stats["cases"] += 1
             st = x["status"]
@@ -103,6 +103,8 @@ def run(pid, tier, families, t0, extra_assume=(), level="model_checking", strict
                 nontriv.add(x.get("text"))
             if st == "ok" and len(samples) < 6 and len(c["ops"]) >= 8 and (stats["cases"] % 97 == 1):
                 samples.append({"family": name, "text": x["text"], "expect": P._show_spec(c["expect"])})
+    if after:
+        after(rep, stats)
     code = rep.finish()
     C.write_evidence(pid, tier, level, {
         "states": states, "transitions": trans,
